@@ -6,9 +6,12 @@ ID = "C28"
 THEOREMS = [
     "C28_write_tree", "C28_write_tree_git_partial",
     "C28_write_tree_flat_partial", "C28_write_tree_flat_git_partial", "C28_ita_refuted",
+    "C28_commit_symlink_refuted", "C28_commit_files",
     "C28_rm_file_eq", "C28_rm_dir_missing_refuted", "C28_rm_untracked_dir_refuted",
+    "C28_rm_below_file_refuted", "C28_rm_deleted_dir_refuted",
     "C28_mv_eq_partial", "C28_mv_stat_refuted", "C28_mv_mkdir_refuted",
     "C28_clean_d_eq_partial", "C28_clean_subdir_refuted",
+    "C28_clean_ignored_dir_refuted", "C28_add_below_tracked_file_refuted",
     "C28_add_ignored_refuted", "C28_add_filemode_refuted", "C28_add_replaced_dir_refuted",
 ]
 MODEL_FILES = ["Status.v", "IndexOps.v"]
@@ -92,6 +95,8 @@ def deviation(c):
     p = c.get("path")
     isdir = lambda q: q not in wt and any(under(q, w) for w in wt)
     if op == "commit":
+        if any(m == "l" and q.rsplit("/", 1)[-1] in (".gitignore", ".gitattributes", ".mailmap", ".gitmodules") for q, (m, _, _) in idx.items()):
+            return "commit-dotfile-symlink"
         return "commit-ita" if any(f == "ita" for (_, _, f) in idx.values()) else None
     if op in ("add", "addall", "mv") and not st["filemode"]:
         for q, (m, cont, t) in wt.items():
@@ -104,6 +109,8 @@ def deviation(c):
         scope = (lambda q: True) if op == "addall" else (lambda q: q == p or under(p, q))
         if any(scope(q) and isdir(q) for q in idx):
             return "add-file-replaced-by-dir"
+        if op == "add" and p in wt and any(under(q, p) for q in idx):
+            return "add-below-tracked-file"
         if op == "add" and p in wt and p not in idx and pg.ignored(st, p):
             return "add-ignored-explicit"
         if op == "add" and isdir(p) and not any(under(p, q) for q in idx) and all(pg.ignored(st, q) for q in wt if under(p, q)):
@@ -112,10 +119,14 @@ def deviation(c):
             return "add-dir-replaced-by-file"
         if op == "add" and isdir(p) and pg.ignored(st, p + "/\x01"):
             return "add-ignored-explicit"
+    if op == "rm" and any(under(q, p) for q in wt) and (p in idx or any(under(p, q) for q in idx)):
+        return "rm-below-file"
+    if op == "rm" and p not in wt and not isdir(p) and p not in idx and any(under(p, q) for q in idx):
+        return "rm-deleted-dir"
+    if op == "mv" and p in idx and isdir(p):
+        return "mv-source-is-directory"
     if op == "rm" and isdir(p) and any(under(p, q) and q not in wt for q in idx):
         return "rm-dir-missing-file"
-    if op == "rm" and isdir(p) and not any(under(p, q) for q in idx):
-        return "rm-untracked-dir-ok"
     if op == "rm" and isdir(p) and any(under(p, d) or d == p for d in st["dirs"]):
         return "rm-prunes-empty-dirs"
     if op == "rm":
@@ -131,12 +142,12 @@ def deviation(c):
         return "mv-mkdir"
     if op == "mv" and p in wt and p in idx and (wt[p][1] != idx[p][1] or wt[p][0] != idx[p][0]):
         return "mv-modified-stat"
-    if op == "add" and p not in wt and p not in idx and p in st["head"] and not isdir(p):
-        return "add-missing-path-ok"
     if op == "add" and p not in wt and p not in idx and not isdir(p) and any(under(p, q) for q in idx):
         return "add-deleted-dir"
     if op == "clean" and any(q not in idx and not pg.ignored(st, q) and any(under(e, q) for e in idx) for q in wt):
         return "clean-under-tracked-name"
+    if op == "clean" and c["dir"] and any(pg.ignored(st, d + "/\x01") for d in st["dirs"]):
+        return "clean-removes-ignored-empty-dir"
     if op == "clean" and c["dir"]:
         for q in wt:
             if q not in idx and not pg.ignored(st, q) and "/" in q:
@@ -209,6 +220,10 @@ class Main(Suite):
         return cases
 
     def model_expr(self, c):
+        if c["op"] == "mv":
+            st = pg.state_of(c)
+            if c["path"] in st["index"] and c["path"] not in st["wt"] and any(under(c["path"], q) for q in st["wt"]):
+                return None   # Move writes an entry with mode 040000: outside the model's file modes (finding mv-source-is-directory)
         return call("c28_", c)
 
     def nontrivial(self, c):
@@ -217,6 +232,7 @@ class Main(Suite):
     def oracle(self, ctx, cases, impl, model):
         """the property itself: index, remaining files, status after add/mv and the committed tree equal git's"""
         fails = {}
+        self.status_only = 0
         for c in cases:
             r = impl.get(c["id"])
             ex = r.get("extra") if r else None
@@ -226,10 +242,14 @@ class Main(Suite):
             why = []
             if ex.get("git_cannot_read_index"):
                 why.append("git cannot read the index go-git wrote: " + ex["git_cannot_read_index"][:120])
+            # The exit status alone is not part of the property (same index entries and remaining files): git also
+            # exits 1 after doing the work (e.g. `git add <tracked file below an ignored directory>` updates the
+            # index and then complains about the directory), and a refusal on one side shows up as a state difference.
             if bool(ex.get("err")) != bool(ex.get("giterr")):
-                why.append("go-git %s, git %s" % ("fails: " + ex["err"][:80] if ex.get("err") else "succeeds",
-                                                  "fails: " + ex["giterr"][:120].replace("\n", " ") if ex.get("giterr") else "succeeds"))
+                self.status_only = getattr(self, "status_only", 0) + 1
             if c["op"] == "commit":
+                if ex.get("err") and not ex.get("giterr"):
+                    why.append("Commit fails (%s) where git write-tree succeeds" % ex["err"][:120])
                 if not ex.get("err") and ex.get("tree_id") != ex.get("git_tree_id"):
                     why.append("commit tree %s differs from git write-tree %s" % (ex.get("tree_id"), ex.get("git_tree_id")))
                 if not ex.get("err") and not ex.get("head_is_commit"):
@@ -275,6 +295,8 @@ class Main(Suite):
                 return items
             if c["op"] == "add" and c["path"] not in pg.state_of(c)["wt"] and pg.ignored(pg.state_of(c), c["path"] + "/\x01"):
                 continue   # an ignored directory named explicitly: the verdict for directories is not part of the state
+            if c["op"] == "mv" and self.model_expr(c) is None:
+                continue
             if c["op"] == "commit":
                 continue   # S's tree listing is checked through the tree id by the oracle; here only index ops
             want_err = bool(ex.get("giterr"))
@@ -299,11 +321,12 @@ class Main(Suite):
             si, sw = plain(body[:cut] if cut else ""), plain(body[cut:] if cut else "")
             gi = list(ex.get("b_index") or [])
             gw = [x for x in (ex.get("b_wt") or []) if not x.startswith("d ")]
-            if want_err != got_err or si != gi or sw != gw:
+            if si != gi or sw != gw:
                 bad += 1
                 ctx.notes.append("spec_mismatch GitIndexOps vs git on %s: S %s / git err=%s idx=%s wt=%s" % (
                     {k: v for k, v in c.items() if k != "id"}, o[:400], want_err, gi, gw))
-        return {"spec_vs_git_cases": sum(1 for c in cases if c["op"] != "commit"), "spec_mismatches": bad}
+        return {"spec_vs_git_cases": sum(1 for c in cases if c["op"] != "commit"), "spec_mismatches": bad,
+                "exit_status_only_differences": getattr(self, "status_only", 0)}
 
 
 SUITES = [Main()]
